@@ -5,6 +5,7 @@ package enum
 import (
 	stdErrors "errors"
 
+	"github.com/jsightapi/jsight-schema-go-library/bytes"
 	"github.com/jsightapi/jsight-schema-go-library/errors"
 	"github.com/jsightapi/jsight-schema-go-library/fs"
 	"github.com/jsightapi/jsight-schema-go-library/internal/lexeme"
@@ -41,6 +42,14 @@ func zzAutoKey(s *scanner) string {
 	}
 	if s.index > 0 && int(s.index) <= len(s.data) && s.data[s.index-1] == ' ' {
 		k += "s"
+	}
+	if s.lengthComputing && s.stack.Len() == 0 {
+		// Length trims the blanks in front of the foreign byte by reading backwards: keep apart 0, 1, 2+
+		nb := 0
+		for nb < 2 && int(s.index)-1-nb >= 0 && bytes.IsBlank(s.data[int(s.index)-1-nb]) {
+			nb++
+		}
+		k += "b" + zzItoa(nb)
 	}
 	return k
 }
@@ -118,6 +127,27 @@ func ZZEnumAuto() {
 	}
 	v.Reach("auto/state-entered")
 	start := int(s.index)
+	// C14: in length mode, when the rule is complete (nothing open) and a foreign byte follows, Len is
+	// the prefix without its trailing blanks. Judged on texts without comments, which end with the bracket.
+	if length && s.stack.Len() == 0 && len(prefix) > 0 && !bytes.IsBlank(c) && c != '/' {
+		want, slash := len(prefix), false
+		for _, b := range prefix {
+			if b == '/' {
+				slash = true
+			}
+		}
+		for want > 0 && bytes.IsBlank(prefix[want-1]) {
+			want--
+		}
+		if !slash && want > 0 && prefix[want-1] == ']' {
+			l, lerr := New("enum", data).Len()
+			v.Reach("C14/auto-enum-len")
+			v.Assert(lerr == nil, "C14/enum-len-error-on-complete-rule")
+			if lerr == nil {
+				v.Assert(int(l) == want, "C14/enum-len")
+			}
+		}
+	}
 	err, panicked, lexOK = zzAutoDrive(s, start+1)
 	v.Assert(!panicked, "C07/enum-scanner-panic")
 	if panicked {
